@@ -25,3 +25,22 @@ def run_on(exe, sources, triples, need_clean=True, timeout=1800):
         raise RuntimeError(f"host worker failed on {exe}: {p.stderr[-800:]}")
     data = json.loads(p.stdout)
     return data["version"], [[(tuple(tr), st, detail) for tr, st, detail in r] for r in data["results"]]
+
+
+def convert_on(exe, sources, triples, timeout=1800):
+    env = dict(os.environ, PYTHONPATH="/repo:/verif", PYTHONHASHSEED="0", PYTHONWARNINGS="ignore")
+    p = subprocess.run([exe, "-W", "ignore", "/verif/harness/impl/host_worker.py"],
+                       input=json.dumps({"mode": "convert", "sources": sources, "triples": [list(t) for t in triples]}),
+                       capture_output=True, text=True, env=env, timeout=timeout)
+    if p.returncode != 0:
+        raise RuntimeError(f"host worker failed on {exe}: {p.stderr[-800:]}")
+    return json.loads(p.stdout)["results"]
+
+
+def run_pairs_on(exe, pairs, timeout=1800):
+    env = dict(os.environ, PYTHONPATH="/verif", PYTHONHASHSEED="0", PYTHONWARNINGS="ignore")
+    p = subprocess.run([exe, "-W", "ignore", "/verif/harness/impl/runtime_worker.py"],
+                       input=json.dumps({"pairs": pairs}), capture_output=True, text=True, env=env, timeout=timeout)
+    if p.returncode != 0:
+        raise RuntimeError(f"runtime worker failed on {exe}: {p.stderr[-800:]}")
+    return json.loads(p.stdout)["results"]
